@@ -82,6 +82,7 @@ func execC20(r *kernel.Run, s TSpec) {
 		r.Violate("C20:race:"+cls, map[string]any{"frames": cls}, "data race reported by the race detector:\n%s", text)
 	}
 	checkTResultValidity(r, "C20", res)
+	checkRandomnessReuse(r, "C20", res) // a concurrently produced result is not "as valid as a sequential one" if it shares randomness with another
 
 	if len(res.Blocks) > 0 {
 		seenB := make(map[[16]byte]bool, len(res.Blocks))
